@@ -44,6 +44,16 @@ fn gen_inv_expr(t: &mut Tape) -> Expr {
                     Item::Range('é', 'a'),
                     Item::Ch('é'),
                     Item::Ch('.'),
+                    // one character that means something inside a class of the regular expression
+                    Item::Ch('^'),
+                    Item::Range('^', '^'),
+                    Item::Ch('&'),
+                    Item::Ch('~'),
+                    Item::Ch('-'),
+                    Item::Ch(']'),
+                    Item::Ch('['),
+                    Item::Ch(':'),
+                    Item::Ch('|'),
                 ])],
             }],
             3 => {
